@@ -71,6 +71,25 @@ fn value_case(neg: bool, a: &[u64], grow: u64) -> Verdict {
         (None, true) => {}
         (g, _) => return Err(format!("to_biguint = {:?} for a value with negative={}", g, r.neg)),
     }
+    // the same conversions through the traits (a generic `T: ToBigUint` caller does not reach the inherent method)
+    match (ToBigUint::to_biguint(&x), r.neg) {
+        (Some(v), false) => ctx(eq_bu(&v, &r.mag), "<BigInt as ToBigUint>::to_biguint")?,
+        (None, true) => {}
+        (g, _) => return Err(format!("<BigInt as ToBigUint>::to_biguint = {:?} for a value with negative={}", g, r.neg)),
+    }
+    match ToBigUint::to_biguint(&u) {
+        Some(v) => ctx(eq_bu(&v, &r.mag), "<BigUint as ToBigUint>::to_biguint")?,
+        None => return Err("<BigUint as ToBigUint>::to_biguint returned None".into()),
+    }
+    match ToBigInt::to_bigint(&x) {
+        Some(v) => ctx(eq_bi(&v, &r), "<BigInt as ToBigInt>::to_bigint")?,
+        None => return Err("<BigInt as ToBigInt>::to_bigint returned None".into()),
+    }
+    match (BigUint::try_from(&x), r.neg) {
+        (Ok(v), false) => ctx(eq_bu(&v, &r.mag), "BigUint::try_from(&BigInt)")?,
+        (Err(_), true) => {}
+        (g, _) => return Err(format!("BigUint::try_from(&BigInt) = {:?} for a value with negative={}", g.is_ok(), r.neg)),
+    }
     match u.to_bigint() {
         Some(v) => ctx(eq_bi(&v, &r.abs()), "BigUint::to_bigint")?,
         None => return Err("BigUint::to_bigint returned None".into()),
